@@ -424,40 +424,89 @@ def physical_lines(data):
     return res
 
 
-def macro_regions(lines, recs, r, maxregions=3):
-    """choose runs of consecutive main-file statement lines that may be wrapped into a parameterless macro"""
+# mirror of spec/BodyCollect.tla (the regions actually wrapped are validated by TLC: BodyCollect_Trace)
+COLLECT_OPENS = {"MACRO", "IRP", "IRPN", "IRPC", "REPT", "WHILE"}
+COLLECT_CLOSES = {"ENDM", "ENDR"}
+IF_OPENS = {"IF", "IFDEF", "IFNDEF", "IFUSED", "IFNUSED", "IFEXIST", "IFNEXIST", "IFB", "IFNB", "SWITCH", "SELECT"}
+IF_CLOSES = {"ENDIF", "ENDC", "ENDCASE"}
+STRUCT_OPENS = {"STRUCT", "STRUC", "UNION"}
+STRUCT_CLOSES = {"ENDSTRUCT", "ENDSTRUC", "ENDS", "ENDUNION"}
+SECT_OPENS = {"SECTION"}
+SECT_CLOSES = {"ENDSECTION"}
+CONSTRUCT_OPS = COLLECT_OPENS | IF_OPENS | STRUCT_OPENS | SECT_OPENS
+WRAP_NEVER = {"END", "INCLUDE", "EXITM", "SHIFT", "SHFT"}
+FAMILIES = [(COLLECT_OPENS, COLLECT_CLOSES), (IF_OPENS, IF_CLOSES), (STRUCT_OPENS, STRUCT_CLOSES), (SECT_OPENS, SECT_CLOSES)]
+
+
+def has_constructs(recs):
+    return any(rc["opu"].upper() in CONSTRUCT_OPS for rc in recs.values())
+
+
+def macro_regions(lines, recs, r, maxregions=3, forced=False, maxlen=1500):
+    """runs of consecutive main-file lines that may be wrapped into a parameterless macro: every line was seen by
+    the assembler with exactly this text, the run is balanced for the body collector and for IF / STRUCT /
+    SECTION pairs (BodyCollect.tla Wrappable), and the assembler is in the same state behind it as in front of it
+    (not collecting, same IF / structure / section depth).  forced: all runs that contain a construct, maximal."""
+    n = len(lines)
     ok = []
+    ops = []
     for i, (ln, eol) in enumerate(lines):
         rec = recs.get(i + 1)
-        good = (rec is not None and rec["e"]["raw"] == ln and not rec["rec"] and not rec["wasif"] and not rec["ifs"]
-                and rec["ifasm"] and not rec.get("std") and not ln.endswith("\\") and eol != ""
-                and rec["opu"].upper() not in NOWRAP_OPS and not rec["e"]["op"].startswith("!")
+        up = ln.upper()
+        good = (rec is not None and rec["e"]["raw"] == ln and not ln.endswith("\\") and eol != ""
+                and not (i > 0 and lines[i - 1][0].endswith("\\"))
+                and rec["opu"].upper() not in WRAP_NEVER and not rec["e"]["op"].startswith("!")
+                and "{" not in rec["e"]["op"]      # {SYM} in the mnemonic is expanded while a body is collected
+                                                    # (t_expandop documents it): the wrap would move that moment
                 and not (rec["e"]["lab"] and not IDENT.match(rec["e"]["lab"]))
-                and "ALLARGS" not in ln.upper() and "ARGCOUNT" not in ln.upper() and "ATTRIBUTE" not in ln.upper()
-                and "MOMLINE" not in ln.upper() and "__LABEL__" not in ln.upper())
-        # the line before must not be a continuation
-        if good and i > 0 and lines[i - 1][0].endswith("\\"):
-            good = False
+                and not any(w in up for w in ("ALLARGS", "ARGCOUNT", "ATTRIBUTE", "MOMLINE", "__LABEL__", "MOMFILE")))
         ok.append(good)
-    runs = []
+        ops.append(rec["opu"].upper() if rec is not None else "")
+
+    def state_after(i):
+        if i < 0:
+            return (0, 0, 0, 0, 1)
+        rec = recs.get(i + 1)
+        if rec is None:
+            return None
+        return (1 if rec["rec"] else 0, len(rec["ifs"]), rec.get("std", 0), rec.get("sed", 0), 1 if rec["ifasm"] else 0)
+    found = []
     i = 0
-    while i < len(ok):
-        if ok[i]:
-            j = i
-            while j < len(ok) and ok[j]:
-                j += 1
-            # the line after a region must not have been recording either (region must not end inside a body)
-            runs.append((i, j))
-            i = j
+    while i < n:
+        base = state_after(i - 1)
+        if not ok[i] or base is None or base[0] != 0 or base[4] != 1:
+            i += 1
+            continue
+        lv = [0, 0, 0, 0]
+        closes = []
+        j = i
+        while j < n and ok[j] and j - i < maxlen:
+            for f, (O, C) in enumerate(FAMILIES):
+                if ops[j] in O:
+                    lv[f] += 1
+                elif ops[j] in C:
+                    lv[f] -= 1
+            st = state_after(j)
+            if min(lv) < 0 or st is None or st[1] < base[1] or st[2] < base[2] or st[3] < base[3]:
+                break
+            if lv == [0, 0, 0, 0] and st[0] == 0 and st[1:4] == base[1:4]:
+                closes.append(j + 1)
+            j += 1
+        if closes:
+            found.append((i, closes))
+            i = closes[-1]
         else:
             i += 1
-    r.shuffle(runs)
     regions = []
-    for (a, b) in runs[:maxregions]:
-        n = b - a
-        ln = r.randint(1, min(n, 25))
-        st = a + r.randint(0, n - ln)
-        regions.append((st, st + ln))
+    if forced:
+        for (a, closes) in found:
+            b = closes[-1]
+            if any(o in CONSTRUCT_OPS for o in ops[a:b]):
+                regions.append((a, b))
+        return regions
+    r.shuffle(found)
+    for (a, closes) in found[:maxregions]:
+        regions.append((a, r.choice(closes)))
     return sorted(regions)
 
 
@@ -468,7 +517,8 @@ def rewrite_file(data, recs, fvec, lvecs, r, do_lines=True):
     lines = physical_lines(data)
     stats = {"untouched": 0, "unshaped": 0, "rewritten": 0, "toolong": 0, "colon": 0, "wrapped_lines": 0,
              "blank_added": 0, "regions": 0, "lines": len(lines)}
-    regions = macro_regions(lines, recs, r) if fvec["wrap"] == "macro" else []
+    regions = macro_regions(lines, recs, r, forced=bool(fvec.get("forced"))) if fvec["wrap"] == "macro" else []
+    stats["region_ops"] = [[(recs[k + 1]["opu"].upper() if recs.get(k + 1) else "") for k in range(a, b)] for (a, b) in regions]
     starts = {a: k for k, (a, b) in enumerate(regions)}
     ends = {b: k for k, (a, b) in enumerate(regions)}
     items = []
@@ -536,3 +586,60 @@ def classify(item):
 
 def changed_indices(items):
     return [k for k, it in enumerate(items) if it["orig"] is not None and it["orig"] != it["new"]]
+
+
+# -------------------------------------------------------------------------------------------------
+# construct trees of spec/BodyCollect.tla -> source text (z80 dialect)
+# -------------------------------------------------------------------------------------------------
+def render_tree(items, depth=0, pnames=None, uid=None):
+    """list of source lines for a list of items; parameter leaves use the names of the innermost parameterised
+    construct; every construct gets names that are unique in the program"""
+    uid = uid if uid is not None else [0]
+    out = []
+    for it in items:
+        k = it["k"]
+        if k == "LEAF":
+            out.append("\tdb\t%s" % (it["n"] if it["n"] >= 0 else pnames[-it["n"] - 1]))
+            continue
+        uid[0] += 1
+        u = uid[0]
+        if k == "REPT":
+            out.append("\trept\t%d" % it["n"])
+            out += render_tree(it["body"], depth + 1, pnames, uid)
+            out.append("\tendm")
+        elif k == "IRP":
+            p = ["QX%dA" % u]
+            out.append("\tirp\t%s,%s" % (p[0], ",".join(str(a) for a in it["args"])))
+            out += render_tree(it["body"], depth + 1, p, uid)
+            out.append("\tendm")
+        elif k == "IRPN":
+            p = ["QX%d%s" % (u, "ABC"[j]) for j in range(it["n"])]
+            out.append("\tirpn\t%d,%s,%s" % (it["n"], ",".join(p), ",".join(str(a) for a in it["args"])))
+            out += render_tree(it["body"], depth + 1, p, uid)
+            out.append("\tendm")
+        elif k == "IRPC":
+            p = ["QX%dA" % u]
+            out.append("\tirpc\t%s,%s" % (p[0], "".join(str(a) for a in it["args"])))
+            out += render_tree(it["body"], depth + 1, p, uid)
+            out.append("\tendm")
+        elif k == "WHILE":
+            c = "qcnt%d" % u
+            out.append("%s\tset\t0" % c)
+            out.append("\twhile\t%s<%d" % (c, it["n"]))
+            out += render_tree(it["body"], depth + 1, pnames, uid)
+            out.append("%s\tset\t%s+1" % (c, c))
+            out.append("\tendm")
+        elif k == "MACRO":
+            out.append("qmac%d\tmacro" % u)
+            out += render_tree(it["body"], depth + 1, pnames, uid)
+            out.append("\tendm")
+            out.append("\tqmac%d" % u)
+        elif k == "IF":
+            out.append("\tif\t%d" % it["n"])
+            out += render_tree(it["body"], depth + 1, pnames, uid)
+            out.append("\tendif")
+        elif k == "SECTION":
+            out.append("\tsection\tqsec%d" % u)
+            out += render_tree(it["body"], depth + 1, pnames, uid)
+            out.append("\tendsection")
+    return out
